@@ -24,7 +24,7 @@ fn parse_cdec(r: &str) -> Option<(String, Vec<u8>)> {
     Some((t[1].to_owned(), unhex(t[2].strip_prefix("data=")?)?))
 }
 
-fn timed(s: &mut Session, op: &str) -> String {
+pub fn timed(s: &mut Session, op: &str) -> String {
     let t0 = now_secs();
     let r = s.interp.exec(&format!("{} now={}", op, t0));
     let t = if now_secs() == t0 { t0 } else { now_secs() };
